@@ -89,6 +89,8 @@ def cases(tier):
             yield ("struct", si, style, -1, 1, True)
     for si in range(len(STRUCT)):
         yield ("corrupt-struct", si)
+    for si in range(len(STRUCT)):
+        yield ("reuse", si)
     for vi in range(0, len(vals), 50):
         yield ("corrupt-val", vi, min(len(vals), vi + 50), tier)
 
@@ -281,8 +283,47 @@ def _run_corrupt(progs):
     return {"evals": max(evals, 1), "nontrivial": len(seen), "judged": evals, "viols": viols[:60], "outcomes": outcomes, "sample": sample}
 
 
+def _run_reuse(case):
+    """one Parser object reused: a rejected (corrupted) text, then the well-formed text: the tree must be what a fresh parser delivers"""
+    from mpilot.parser.parser import Parser
+
+    prog = STRUCT[case[1]]
+    its = G.items_of(prog)
+    text, starts = G.render(its)
+    want = _norm(G.strip_lines(G.expected(prog, its, starts)))
+    viols, outcomes = [], {}
+    evals = 0
+    seen = set()
+    sample = None
+    for op, tok, bad in _corruptions(its):
+        parser = Parser()
+        try:
+            parser.parse(bad)
+            continue
+        except SyntaxError:
+            pass
+        except Exception:
+            continue
+        for again in (1, 2):
+            evals += 1
+            seen.add(hash((bad, again)))
+            sample = {"first_text": bad, "then": text}
+            try:
+                got = _norm(G.strip_lines(G.tree_of(parser.parse(text))))
+            except Exception as exc:
+                viols.append(V("C10:reuse:well-formed-rejected-after-error:%s" % type(exc).__name__, "after rejecting %r the same Parser rejects %r: %r" % (bad, text, exc), first=bad, then=text))
+                break
+            if got != want:
+                viols.append(V("C10:reuse:tree-depends-on-earlier-rejected-text", "after rejecting %r the same Parser parses %r as %r" % (bad, text, got), first=bad, then=text))
+                break
+            outcomes["reuse:ok"] = outcomes.get("reuse:ok", 0) + 1
+    return {"evals": max(evals, 1), "nontrivial": len(seen), "judged": evals, "viols": viols[:20], "outcomes": outcomes, "sample": sample}
+
+
 def run(case):
     case = tuple(case)
+    if case[0] == "reuse":
+        return _run_reuse(case)
     if case[0] == "val":
         return _run_val(case)
     if case[0] == "struct":
